@@ -731,6 +731,8 @@ class Machine:
             key = key.split('::', 1)[1]
         if key in self.prog.by_name and self.prog.by_name[key].kind == 'const':
             return self.call_body(self.prog.by_name[key], [], {})
+        if re.fullmatch(r'(?:[a-z_][A-Za-z0-9_]*::)*[A-Z][A-Za-z0-9_]*', s):
+            return Agg('struct', s.split('::')[-1], [])          # a unit struct used as a value (e.g. `BigDecimalVisitor`)
         raise Unsupported('const? ' + s)
 
     def eval_operand(self, frame, op):
@@ -955,6 +957,23 @@ class Machine:
                 lo, hi = INT_RANGE[ity]
                 v = (v - lo) % (hi - lo + 1) + lo
             return v  # symbolic: assume compiler-proved no overflow (unchecked arithmetic only appears where rustc elided the check)
+        if op in ('BitAnd', 'BitOr', 'BitXor') and (isinstance(x, bool) or isinstance(y, bool) or (is_sym(x) and z3.is_bool(x)) or (is_sym(y) and z3.is_bool(y))):
+            # boolean operands (e.g. the `x == -1 & y == MIN` guard rustc emits before a signed division)
+            bx = x if (isinstance(x, bool) or is_sym(x)) else bool(x)
+            by = y if (isinstance(y, bool) or is_sym(y)) else bool(y)
+            if isinstance(bx, bool) and isinstance(by, bool):
+                return {'BitAnd': bx and by, 'BitOr': bx or by, 'BitXor': bx != by}[op]
+            if op == 'BitAnd':
+                if bx is False or by is False:
+                    return False
+                return by if bx is True else (bx if by is True else z3.And(bx, by))
+            if op == 'BitOr':
+                if bx is True or by is True:
+                    return True
+                return by if bx is False else (bx if by is False else z3.Or(bx, by))
+            zx = z3.BoolVal(bx) if isinstance(bx, bool) else bx
+            zy = z3.BoolVal(by) if isinstance(by, bool) else by
+            return z3.Xor(zx, zy)
         if op in ('BitAnd', 'BitOr', 'BitXor') and not is_sym(x) and not is_sym(y):
             return {'BitAnd': x & y, 'BitOr': x | y, 'BitXor': x ^ y}[op]
         if op == 'BitAnd' and (is_sym(x) != is_sym(y)):
